@@ -652,7 +652,7 @@ example : (match buildOutcome { dSub with rels := [⟨41, 7, .subsup 9 [(2, [⟨
     | .attributeError => true | _ => false) = true := by decide
 
 /-- the rows of d0 in reverse order -/
-example : RowWF d0 ∧ RowPerm d0 ⟨d0.containers.reverse, d0.dts.reverse, d0.classes.reverse, d0.rels.reverse⟩ :=
+example : RowWF d0 ∧ RowPerm d0 ⟨d0.containers.reverse, d0.dts.reverse, d0.classes.reverse, d0.rels.reverse, []⟩ :=
   ⟨⟨by decide, by decide, by decide⟩,
    ⟨(List.reverse_perm _).symm, (List.reverse_perm _).symm, (List.reverse_perm _).symm, (List.reverse_perm _).symm⟩⟩
 
